@@ -184,7 +184,7 @@ func (h *handler) OnClose(c gnet.Conn, err error) (action gnet.Action) {
 	w.closedN++
 	w.countChanged()
 	w.logf("conn %d OnClose err=%v local=%v peer=%v", cs.idx, err != nil, cs.localReq, cs.peerCause)
-	if err == nil && !cs.localReq && !w.stopRequested {
+	if err == nil && !cs.localReq && !w.stopRequested && !w.stopEverAsked {
 		w.violate("C04", "close-nil-without-local-cause", "conn %d: OnClose reported a nil error but no local close had been requested (peer cause present: %v)", cs.idx, cs.peerCause)
 	}
 	if err != nil && !cs.peerCause {
@@ -192,7 +192,7 @@ func (h *handler) OnClose(c gnet.Conn, err error) (action gnet.Action) {
 	}
 	// C01: an orderly peer close must come after everything sent was offered
 	ps := w.peers[cs.idx]
-	if err != nil && !cs.localReq && !w.stopRequested && ps.closedByPeer && !cs.sock.PeerSawReset() && cs.sock.WriteErrs == 0 && cs.sock.EOFReads > 0 && !w.faultTouched(cs) && cs.failed == nil && len(w.p.Faults) == 0 {
+	if err != nil && !cs.localReq && !w.stopRequested && !w.stopEverAsked && ps.closedByPeer && !cs.sock.PeerSawReset() && cs.sock.WriteErrs == 0 && cs.sock.EOFReads > 0 && !w.faultTouched(cs) && cs.failed == nil && len(w.p.Faults) == 0 {
 		if cs.offered != ps.sent {
 			w.violate("C01", "close-before-offered", "conn %d: peer sent %d bytes and closed in order, OnClose fired after only %d bytes had been offered to OnTraffic (kernel handed over %d)", cs.idx, ps.sent, cs.offered, cs.sock.ReadBytes)
 		}
@@ -636,6 +636,9 @@ func (w *World) checkAddrs(cs *connState) {
 	ra := cs.c.RemoteAddr()
 	la := cs.c.LocalAddr()
 	want := w.peerAddr(cs.idx)
+	if cs.cp.Dial {
+		want = cs.sock.Remote
+	}
 	if !sockaddrMatches(ra, want) {
 		w.violate("C17", "remote-addr", "conn %d: RemoteAddr()=%v, the peer connected from %s", cs.idx, ra, vsys.AddrKey("", want))
 	}
